@@ -112,6 +112,9 @@ def irdl_init(interp, self_obj, operands=(), result_types=(), properties=None, a
     F["regions"] = regs
     F["parent"] = None
     F["successors"] = seq(successors)
+    all_ops = xir.get("ALL_OPS")
+    if all_ops is not None:
+        all_ops.append(self_obj)
     implicit = xir.get("IMPLICIT")
     if implicit:
         interp.call(interp.getattr(implicit[-1], "add_op"), [self_obj], {})
